@@ -371,6 +371,52 @@ def real_fs(ck, work, quick):
                      f"'hang' = still retrying when killed after 8 s)", {"case": "deleted-cwd", "got": res},
                      key="retry-forever" if res == ["hang"] else None)
     # parent is not a directory / read-only cannot be provoked as root; covered by the stub faults
+    # the test's init hook changes the current directory (to its own work dir, which holds a tmp1 of an earlier run):
+    # whatever directory the run then uses, it is a NEW one - the old tmp1 and its files stay as they are
+    d4 = os.path.join(work, "chdir")
+    os.makedirs(os.path.join(d4, "launch"))
+    os.makedirs(os.path.join(d4, "target", "tmp1"))
+    with open(os.path.join(d4, "target", "tmp1", "1-interesting.txt"), "w") as f:
+        f.write("precious result of an earlier run")
+    with open(os.path.join(d4, "target", "tmp1", "original.txt"), "w") as f:
+        f.write("earlier original")
+    src4 = os.path.join(os.environ.get("VERIF_REPO", "/repo"), "src")
+    prog4 = (
+        "import os, sys, json, logging\n"
+        f"sys.path.insert(0, {src4!r})\n"
+        "logging.disable(logging.CRITICAL)\n"
+        "from lithium.reducer import Lithium\n"
+        "from lithium.strategies import Minimize\n"
+        "from lithium.testcases import TestcaseLine\n"
+        "base = sys.argv[1]\n"
+        "os.chdir(os.path.join(base, 'launch'))\n"
+        "t = os.path.join(base, 'launch', 't.txt'); open(t, 'w').write('a\\nb\\nc\\nd\\n')\n"
+        "class Script:\n"
+        "    def init(self, args): os.chdir(os.path.join(base, 'target'))\n"
+        "    def interesting(self, args, prefix): return b'a' in open(t, 'rb').read()\n"
+        "l = Lithium(); l.strategy = Minimize(); l.testcase = TestcaseLine(); l.testcase.load(t)\n"
+        "l.condition_script = Script(); l.condition_args = []\n"
+        "try:\n"
+        "    rc = l.run(); out = ['rc', rc, str(l.temp_dir)]\n"
+        "except BaseException as e:\n"
+        "    out = ['exc', type(e).__name__, str(e)[:100]]\n"
+        "print(json.dumps(out))\n")
+    try:
+        pr = subprocess.run(["timeout", "-s", "KILL", "60", sys.executable, "-c", prog4, d4], capture_output=True, text=True,
+                            timeout=70, check=False)
+        import json
+        got4 = json.loads(pr.stdout.strip().splitlines()[-1])
+    except Exception as e:  # pylint: disable=broad-except
+        got4 = ["crash", str(e)[:200]]
+    ck.count("realfs")
+    ck.nontrivial(("realfs", "init-chdir"))
+    old1 = os.path.join(d4, "target", "tmp1")
+    kept = (sorted(os.listdir(old1)) == ["1-interesting.txt", "original.txt"]
+            and open(os.path.join(old1, "1-interesting.txt")).read() == "precious result of an earlier run"
+            and open(os.path.join(old1, "original.txt")).read() == "earlier original")
+    if not kept or got4[0] != "rc":
+        ck.violation(f"the test's init hook changes directory to one that holds a tmp1 of an earlier run: run -> {got4}; the old "
+                     f"tmp1 now holds {sorted(os.listdir(old1))} (untouched: {kept})", {"case": "init-chdir", "got": got4})
     # "each run": main() through the real command line, twice on ONE Lithium object and once on a fresh one,
     # all in the same directory: tmp1, tmp2, tmp3, the files of each run only in its own directory
     d3 = os.path.join(work, "twice")
